@@ -1,4 +1,5 @@
 import AdaptiveProofs.Lemmas.L1DEquiv
+import AdaptiveProofs.Lemmas.Choose
 
 /-!
 # C12 — rescaling inputs or outputs does not change which points are chosen
@@ -49,4 +50,44 @@ theorem l1d_run_equivariant_strong {cx cy : α} (hx : 0 < cx) (hy : 0 < cy) (hsf
     run lossFn r12 (scaleState cx cy s) (ops.map (scaleOp cx cy)) = scaleState cx cy (run lossFn r12 s ops) :=
   run_equivariant_strong lossFn r12 hx hy hsf s ops
 
+end C12
+
+/-! ## appended: the N-D learner's choice of the new point (triangles) under rescaling of the axes
+
+For `LearnerND` the statement "rescaling the inputs does not change which points are chosen" passes through
+`choose_point_in_simplex(simplex, transform = diag(1 / width))` (`AdaptiveModel/Choose.lean`, `Lemmas/Choose.lean`):
+when every axis `k` is stretched by `s_k`, the widths and hence the transform follow (`t_k / s_k`), the TRANSFORMED
+triangle is literally the same, and the chosen point is the stretched image of the chosen point.  (Ordered fields; for
+IEEE doubles and powers of two the products `x * s * (t / s)` are exact as well — checked by the paired oracle.) -/
+namespace C12
+section choose2
+open Choose
+variable {α : Type} [Field α] [LinearOrder α] [IsStrictOrderedRing α]
+
+/-- C12.nd.a  one factor per axis -/
+theorem lnd_choose2_scale_axes (sqrt : α → α) (eps : α) (p0 p1 p2 : P2 α) (t0 t1 s0 s1 : α) (h0 : s0 ≠ 0) (h1 : s1 ≠ 0) :
+    choosePoint2 sqrt eps (scaleT s0 s1 p0) (scaleT s0 s1 p1) (scaleT s0 s1 p2) (some (t0 / s0, t1 / s1))
+      = scaleT s0 s1 (choosePoint2 sqrt eps p0 p1 p2 (some (t0, t1))) :=
+  choose2_scale_axes sqrt eps p0 p1 p2 t0 t1 s0 s1 h0 h1
+
+/-- C12.nd.b  a common factor on all axes: `choose(s·p; diag(t / s)) = s · choose(p; diag(t))` -/
+theorem lnd_choose2_scale (sqrt : α → α) (eps : α) (p0 p1 p2 : P2 α) (t0 t1 s : α) (h : s ≠ 0) :
+    choosePoint2 sqrt eps (smulP s p0) (smulP s p1) (smulP s p2) (some (t0 / s, t1 / s))
+      = smulP s (choosePoint2 sqrt eps p0 p1 p2 (some (t0, t1))) :=
+  choose2_scale sqrt eps p0 p1 p2 t0 t1 s h
+
+/-- C12.nd.c  … and without a transform, for `s > 0` (every step of the code is rescaled: the circumcentre, the
+relative tolerance of the barycentric test, the distances through `sqrt (s² x) = s sqrt x`, the first maximum) -/
+theorem lnd_choose2_scale_none (sqrt : α → α) (hs : Prims.SqrtLaw sqrt) (eps : α) (p0 p1 p2 : P2 α) {s : α} (h : 0 < s) :
+    choosePoint2 sqrt eps (smulP s p0) (smulP s p1) (smulP s p2) none
+      = smulP s (choosePoint2 sqrt eps p0 p1 p2 none) :=
+  choose2_scale_none sqrt hs eps p0 p1 p2 h
+
+/-- C12.nd.d  translating the domain translates the chosen point (no transform, or `diag(t0, t1)` with non-zero entries) -/
+theorem lnd_choose2_translate (sqrt : α → α) (eps : α) (p0 p1 p2 v : P2 α) (t : Option (P2 α))
+    (ht : ∀ t0 t1, t = some (t0, t1) → t0 ≠ 0 ∧ t1 ≠ 0) :
+    choosePoint2 sqrt eps (addP p0 v) (addP p1 v) (addP p2 v) t = addP (choosePoint2 sqrt eps p0 p1 p2 t) v :=
+  choose2_translate sqrt eps p0 p1 p2 v t ht
+
+end choose2
 end C12
